@@ -318,6 +318,9 @@ pub struct Prov {
     /// CR LF line terminators
     #[serde(default)]
     pub crlf: bool,
+    /// comment lines added to the header (the IERS file itself carries ~200 of them; up to ~1000 here: > 64 KiB)
+    #[serde(default)]
+    pub padding: u16,
 }
 
 /// the file's table: the first k rows of the IERS table, then the hypothetical later rows
@@ -340,7 +343,7 @@ fn prov_strategy() -> BS<Prov> {
     // later rows up to year ~2400: timestamps beyond 2^32 s (7 February 2036) included
     let extra = prop_oneof![3 => Just(vec![]), 2 => prop::collection::vec(prop_oneof![4 => 0u16..6, 1 => 0u16..200], 1..8)];
     (prop_oneof![3 => Just(28usize), 2 => 1usize..=28], prop::collection::vec(any::<u8>(), 0..80), prop::collection::vec(epoch_any(&ALL_SCALES), 1..40), extra, prop::bool::weighted(0.2))
-        .prop_map(|(k, deco, epochs, extra, crlf)| Prov { k, deco, epochs, extra, crlf })
+        .prop_map(|(k, deco, epochs, extra, crlf)| { let padding = if deco.len() % 7 == 0 { 100 + (deco.len() as u16 * 37) % 900 } else { 0 }; Prov { k, deco, epochs, extra, crlf, padding } })
         .boxed()
 }
 
@@ -358,6 +361,9 @@ fn render_file(c: &Prov) -> String {
     for _ in 0..next(4) {
         out.push_str(comments[next(comments.len() as u8) as usize]);
         out.push('\n');
+    }
+    for i in 0..c.padding {
+        out.push_str(&format!("#\tThe following line shows the last update of this file in NTP timestamp ({:05})\n", i));
     }
     for (i, (ts, dat)) in table.iter().take(nrows).enumerate() {
         let _ = i;
